@@ -14,7 +14,6 @@ import (
 	"github.com/NethermindEth/juno/blockchain/networks"
 	"github.com/NethermindEth/juno/jsonrpc"
 	"github.com/NethermindEth/juno/rpc"
-	rpcv10 "github.com/NethermindEth/juno/rpc/v10"
 	"github.com/NethermindEth/juno/utils/log"
 	"verif/harness/lib"
 )
@@ -31,7 +30,7 @@ func (rn *runner) realTables() {
 		return nil
 	})
 	if err != nil || panicked {
-		res.Note("real method tables not available: %v", err)
+		res.Fatalf("real method tables not available: %v", err)
 		res.Mismatch(lib.Mismatch{Sig: "real-method-tables-not-constructible", Model: fmt.Sprint(err)})
 		return
 	}
@@ -63,7 +62,7 @@ func (rn *runner) realTables() {
 			spec.Methods = append(spec.Methods, ms)
 			res.Hit("real-table:" + ver + ":methods")
 		}
-		s := jsonrpc.NewServer(2, log.NewNopZapLogger()).WithValidator(rpcv10.Validator())
+		s := jsonrpc.NewServer(2, log.NewNopZapLogger()).WithValidator(versionValidator(ver))
 		if err := s.RegisterMethods(methods...); err != nil {
 			res.Violate(lib.Violation{Sig: "real-table-does-not-register", What: ver + ": " + err.Error(), Replay: map[string]string{"table": ver}})
 			continue
@@ -74,7 +73,7 @@ func (rn *runner) realTables() {
 			w.byName[w.Spec.Methods[i].Name] = &w.Spec.Methods[i]
 		}
 		if err := rn.setWorld(w); err != nil {
-			res.Note("real tables: %v", err)
+			res.Fatalf("real tables: %v", err)
 			return
 		}
 		var inputs [][]byte
@@ -97,7 +96,7 @@ func (rn *runner) realTables() {
 		}
 		answers, err := rn.drv.AskAll(lines)
 		if err != nil {
-			res.Note("real tables: %v", err)
+			res.Fatalf("real tables: %v", err)
 			return
 		}
 		for i, in := range inputs {
